@@ -56,7 +56,7 @@ def address(r, ins, regs, depth=0):
     """A memory address: a few fixed cells (so loads see earlier stores) or register based."""
     k = r.random()
     if k < 0.55:
-        return c64(r.choice([0, 4, 8, 12, 16, 0, 4, 8, 12, 16, 32, 36, 40, 48, 1000, TOP - 4]))
+        return c64(r.choice([0, 4, 8, 12, 16, 0, 4, 8, 12, 16, 1, 2, 5, 6, 9, 32, 36, 40, 48, 1000, TOP - 4]))
     x = r.choice(regs)
     ins.rin.add(x)
     if k < 0.8:
@@ -345,8 +345,39 @@ g_depsx = g_history("depsx", [None, None, "f07", "f07", "f08"])
 g_depsadjh = g_history("depsadjh", [None, None, None, "f07", "f08"])
 
 
+def g_depsemu_loads(r):
+    """One block of mutually independent loads of different widths from one small window (each into its own register),
+    reordered freely: the way the emulator's memory caches and cuts the provider's answers depends on the order of the
+    loads, the values must not."""
+    n = r.choice([2, 3, 3, 4, 5, 6])
+    base = r.choice([64, 4096, 1 << 32])
+    key = r.choice(MEMS)
+    win = r.choice([0, 0, 1000, TOP - 200])
+    blocks = [[]]
+    a = base
+    for k in range(n):
+        ins = Ins()
+        ins.addr, ins.len = a, 4
+        w = r.choice([1, 1, 2, 2, 4, 4, 8, 8, 8, 16, 40, 64])
+        off = r.choice([0, 0, 1, 2, 3, 4, 5, 6, 7, 8, 12, 16, 31, 32, 33, 36, 40])
+        src = "m %s %d %s" % (key, w, c64(win + off))
+        if r.random() < 0.25:
+            src = "b add 8 %s %s" % (src, c64(r.randint(0, 9)))
+        ins.efs = ["rs y%d 8 %s" % (k, src)]
+        if r.random() < 0.2:
+            ins.efs.append("rs z%d 4 m %s %d %s" % (k, key, r.choice([1, 2, 4]), c64(win + r.choice([1, 2, 5, 9, 34]))))
+        blocks[0].append(ins)
+        a += 4
+    moves = []
+    for _ in range(r.choice([1, 2, 3, 5, 8])):
+        moves.append(["mv", "0", str(r.randrange(n)), str(r.randrange(n))])
+    return "depsemu %d %s" % (r.getrandbits(32), fmt("x", base, blocks, moves).split(" ", 1)[1])
+
+
 def g_depsemu(r):
     """C05 end to end: the same programs and histories, run by the real emulator (harness op depsemu)."""
+    if r.random() < 0.2:
+        return g_depsemu_loads(r)
     if r.random() < 0.4:
         line = g_depsx_long(r)
     else:
